@@ -557,6 +557,8 @@ pub fn specfile(t: &Templates, seed: u64, scn: &Value) -> Value {
             "zero" => vec![0u8; (hi - lo) as usize],
             "ff" => vec![0xffu8; (hi - lo) as usize],
             "text" => (lo..hi).map(|i| if i % 64 == 63 { b'\n' } else { b'a' + (i % 23) as u8 }).collect(),
+            // one short first line, then no further newline
+            "longline" => (lo..hi).map(|i| if i == 15 { b'\n' } else { b'A' + (i % 26) as u8 }).collect(),
             _ => pbytes(pseed, lo, hi),
         }
     };
